@@ -17,9 +17,18 @@ Spaces (DESIGN.md section 4, C08); N = 4^(n+1) phased Paulis on n qubits:
              length <= 2 (through dense matrices up to n = 8 quick / 9 thorough: kind bign_dense).
   rand_stub: rand_pauli with a stub generator answering every one of the 2^(2n+2) bit patterns x every flag value.
   rand_seed: rand_pauli with integer seeds (a fixed list) for n = 1..12 x every flag value.
+  argform  : argument forms of the same conversions: numpy integer scalars (elements of the library's own uint64 / int64 index
+             batches, int32) into every scalar index consumer, all 4^n indices (+ the bigidx alphabet for n <= 31); the
+             out-of-range indices 4^n, 4^n+1, -1 (must be rejected by an assert); the sign as np.complex128 / complex64 /
+             float / np.int64 / 0-d array and as a broadcasting (l,), (k,1), (1,l) or complex64 array against (k,l) string
+             batches; np_list as tuple / 3-d array; from_full_matrix on float64 / int64 copies of the real dense Paulis;
+             get_pauli_group before / after clearing the lru_cache. repr / str are parsed ('<sign><letters> [bits]').
+  f2alias  : PauliOperator(src) / from_F2(src), one view read, src overwritten in place by every other element: F2, (str_,
+             sign), np_list, full_matrix, repr must all describe the old or all the new operator.
 Oracle: dense numpy (mc.ref) + the letter-wise reference below.
 """
 import itertools
+import re
 import sys
 
 import numpy as np
@@ -33,12 +42,19 @@ RULE = ('state = one (element, start representation) of the phased Pauli group /
         'property-access history / one generator answer; all 4^(n+1) elements, all ordered pairs, all conversion paths of '
         'length <= 3 over the graph of public conversions, all batch shapes (k,), (k,l), all 2^(2n+2) generator answers are '
         'enumerated; transition = one library call whose result (fed forward along the path) is compared with the reference '
-        'encoding / dense product; non-trivial = the element (or product) is not the identity with phase +1')
+        'encoding / dense product; non-trivial = the element (or product) is not the identity with phase +1. Argument forms: every '
+        'element x every sign form (numpy scalar types, 0-d, complex64, broadcasting sub-shapes) x every function taking a sign; '
+        'every index x numpy scalar type x every scalar index consumer; 4^n, 4^n+1, -1 must be rejected; every ordered pair '
+        '(old, new) x constructor x view read first for the aliased source array (views must stay mutually consistent); '
+        'repr/str parsed and compared with the reference; PENDING lists additions that wait for a repair of numqi')
 ASSUMPTIONS = [
     'reference semantics: [b0,b1,x,z] denotes i^(2 b0+b1) kron_k X^x_k Z^z_k with kron-built dense matrices (mc.ref.pauli_dense), qubit 0 the most significant factor',
     'index convention as documented in get_pauli_group: base-4 digits I=0,X=1,Y=2,Z=3, first qubit most significant; the index carries no phase, so conversions through it return the +1 signed string',
     'the letter-wise reference used for n>=5 (products of 2x2 matrices per tensor factor) is validated exhaustively against the dense reference for n<=2 before every run',
-    'index values >= 4^n, n=32 and empty batches are outside the stated domain and not fed',
+    'index values 4^n, 4^n+1 and -1 are fed only as inputs that every index consumer has to reject with an AssertionError; n=32, n=0 and empty batches are outside the stated domain and not fed',
+    'sign forms fed: python int/complex, float, np.float64, np.int64, np.complex128, np.complex64, 0-d arrays of these, and arrays broadcastable to the batch shape; other containers for the sign are outside',
+    'repr/str format as written in PauliOperator.__str__: sign prefix in {"", i, -, -i}, letters, one blank, the F2 bits comma separated in brackets',
+    'consistency of a PauliOperator after its source array was overwritten is judged only between the views of the object (all old or all new); which of the two is not prescribed',
 ]
 CHUNK = 1
 
@@ -351,8 +367,288 @@ def walk(g, out, n, e0, node, val, e, depth, path, start, site='conv', dense_ok=
         out.outcome('%d:%s:%d:%s' % (n, dst, e2[0], e2[1]), nontrivial=(e2 != (0, 'I' * n)), pre_digested=True)
         if dst == 'IDX' and not isinstance(v2, int):
             out.count('index_returned_as_numpy_scalar')
+            # the library's own element type goes into every scalar index consumer before the path continues with int(v2)
+            feed_numpy_index(g, out, site, n, v2, type(v2).__name__, e2[1], dense_ok)
             v2 = int(v2)
         walk(g, out, n, e0, dst, v2, e2, depth - 1, path + [name], start, site, dense_ok)
+
+
+# ------------------------------------------------------------------ argument forms (audit additions)
+# Additions whose oracle fires on the unchanged tree and waits for a repair of numqi; the oracle stays in the module:
+#   index_range_batch  : pauli_index_to_F2(np.array([17]), 2) (also list / numpy scalar / 0-d) silently returns the encoding of
+#                        17 mod 16, and of 2^64-1 mod 16 for -1: the bit-unpacking path has no range check
+#   f2_alias           : p = PauliOperator(src); p.str_; src[:] = other  ->  p.F2 is the new operator, p.str_/p.sign the old
+# Repaired in numqi and active: numpy_scalar_index (pauli_index_to_str(np.int64(6), 2)), index_upper_bound (index 4**n).
+PENDING = {'index_range_batch', 'f2_alias'}
+
+
+def pending(out, flag):
+    if flag in PENDING:
+        out.count('pending/' + flag)
+        return True
+    return False
+
+
+SIGN_PREFIX = ['', 'i', '-', '-i']
+REPR_RE = re.compile(r'^(-i|i|-|)([IXYZ]+) \[([01](?:,[01])*)\]$')
+
+
+def cmp_repr(v, e):
+    """repr/str of a PauliOperator is '<sign><letters> [b0,b1,x..,z..]' with sign in {'', i, -, -i} (PauliOperator.__str__)"""
+    f2 = elem_to_f2(e)
+    exp = SIGN_PREFIX[e[0]] + e[1] + ' [' + ','.join(str(int(b)) for b in f2) + ']'
+    if not isinstance(v, str):
+        return 'wrong_repr', exp
+    m = REPR_RE.match(v)
+    if m is None:
+        return 'wrong_repr_format', exp
+    if m.group(2) != e[1]:
+        return 'wrong_repr_letters', exp
+    if m.group(1) != SIGN_PREFIX[e[0]]:
+        return 'wrong_repr_sign', exp
+    if [int(b) for b in m.group(3).split(',')] != f2.tolist():
+        return 'wrong_repr_bits', exp
+    return None, exp
+
+
+NP_INDEX_TYPES = [('np.int64', np.int64, 2 ** 63), ('np.uint64', np.uint64, 2 ** 64), ('np.int32', np.int32, 2 ** 31)]
+
+# every public function that takes ONE index (name, destination node, callable(g, index, n))
+IDX_CONSUMERS = [
+    ('pauli_index_to_str', 'SS', lambda g, i, n: (g.pauli_index_to_str(i, n), 1)),
+    ('pauli_index_to_F2', 'F2', lambda g, i, n: g.pauli_index_to_F2(i, n)),
+    ('pauli_index_to_F2[with_sign=False]', 'F2NS', lambda g, i, n: g.pauli_index_to_F2(i, n, with_sign=False)),
+    ('PauliOperator.from_index', 'F2', lambda g, i, n: g.PauliOperator.from_index(i, n).F2),
+    ('get_pauli_group[str]', 'SS', lambda g, i, n: (g.get_pauli_group(n, kind='str')[i], 1)),
+    ('get_pauli_group[numpy]', 'MAT', lambda g, i, n: g.get_pauli_group(n)[i]),
+    ('get_pauli_group[sparse]', 'MAT', lambda g, i, n: g.get_pauli_group(n, use_sparse=True)[i].toarray()),
+]
+
+
+def feed_numpy_index(g, out, site, n, i, tname, letters, dense_ok=True):
+    """one numpy integer scalar (the element type of the library's own index batches) into every scalar index consumer;
+    oracle: the reference encoding of the +1 signed string, exactly as for the python int"""
+    e = (0, letters)
+    for name, dst, fn in IDX_CONSUMERS:
+        if name.startswith('get_pauli_group') and (n > GROUP_NMAX or (dst == 'MAT' and not dense_ok)):
+            continue
+        if name == 'pauli_index_to_str' and pending(out, 'numpy_scalar_index'):
+            continue
+        out.trans()
+        key = '%s/%s[%s]' % (site, name, tname)
+        detail = dict(n=n, index=int(i), index_type=tname)
+        try:
+            v = fn(g, i, n)
+        except Exception as ex:
+            out.violation('%s/%s' % (key, type(ex).__name__), '%s(%s(%d), n=%d) raised %r; the python int is accepted' % (name, tname, int(i), n, ex), **detail)
+            continue
+        err, exp = CMP[dst](v, e)
+        if err is not None:
+            out.violation('%s/%s' % (key, err), '%s(%s(%d), n=%d) returned %s, expected %s' % (name, tname, int(i), n, str(_lit(v))[:120], str(_lit(exp))[:120]),
+                          observed=_lit(v), expected=_lit(exp), **detail)
+            continue
+        out.trace()
+
+
+def feed_out_of_range(g, out, site, n):
+    """4^n, 4^n+1 and -1 are not indices of n-qubit Pauli strings: every index consumer has to reject them with an assert
+    (a silently accepted 4^n decodes to the identity and index -> str -> index is no longer the identity)"""
+    top = 4 ** n
+    for v, vname in ((top, '4^n'), (top + 1, '4^n+1'), (-1, '-1')):
+        arr = np.array([0, v], dtype=np.int64 if v < 0 else np.uint64)
+        sc = np.int64(v) if v < 0 else np.uint64(v)
+        calls = [
+            ('pauli_index_to_str[int]', 'scalar', lambda: g.pauli_index_to_str(v, n)),
+            ('pauli_index_to_F2[int]', 'scalar', lambda: g.pauli_index_to_F2(v, n)),
+            ('pauli_index_to_F2[int,with_sign=False]', 'scalar', lambda: g.pauli_index_to_F2(v, n, with_sign=False)),
+            ('PauliOperator.from_index', 'scalar', lambda: g.PauliOperator.from_index(v, n)),
+            ('pauli_index_to_str[batch]', 'scalar', lambda: g.pauli_index_to_str(arr.copy(), n)),
+            ('pauli_index_to_F2[batch]', 'array', lambda: g.pauli_index_to_F2(arr.copy(), n)),
+            ('pauli_index_to_F2[batch,with_sign=False]', 'array', lambda: g.pauli_index_to_F2(arr.copy(), n, with_sign=False)),
+            ('pauli_index_to_F2[list]', 'array', lambda: g.pauli_index_to_F2([0, v], n)) if v >= 0 else None,
+            ('pauli_index_to_F2[%s]' % type(sc).__name__, 'array', lambda: g.pauli_index_to_F2(sc, n)),
+        ]
+        for c in calls:
+            if c is None:
+                continue
+            name, path, fn = c
+            # 'scalar': goes through the per-index assert (accepts 4^n on the pinned tree); 'array': the bit-unpacking path
+            if path == 'array' and pending(out, 'index_range_batch'):
+                continue
+            if path == 'scalar' and v == top and pending(out, 'index_upper_bound'):
+                continue
+            out.state()
+            out.trans()
+            detail = dict(n=n, index=v)
+            try:
+                r = fn()
+            except AssertionError:
+                out.count('rejected_by_precondition')
+                out.trace()
+                out.outcome('oob:%d:%s:%s:rejected' % (n, name, vname), nontrivial=True, pre_digested=True)
+                continue
+            except Exception as ex:
+                out.violation('%s/%s/%s' % (site, name, type(ex).__name__), '%s raised %r for the out-of-range index %s=%d (n=%d); expected a precondition assert' % (name, ex, vname, v, n), **detail)
+                continue
+            out.violation('%s/%s/out_of_range_accepted/%s' % (site, name, vname),
+                          '%s accepted the index %s=%d for n=%d (valid: 0..%d) and returned %s' % (name, vname, v, n, top - 1, str(_lit(getattr(r, 'F2', r)))[:120]),
+                          observed=_lit(getattr(r, 'F2', r)), **detail)
+
+
+def sign_forms(k):
+    """the phase i^k as the scalar types a caller holds it in (the python int / complex is the start_value form)"""
+    z = PH[k]
+    forms = [('np.complex128', np.complex128(z)), ('np.complex64', np.complex64(z)),
+             ('0d-complex128', np.array(z, dtype=np.complex128)), ('0d-complex64', np.array(z, dtype=np.complex64))]
+    if k % 2 == 0:
+        r = 1 - k
+        forms += [('float', float(r)), ('np.float64', np.float64(r)), ('np.int64', np.int64(r)),
+                  ('0d-int64', np.array(r, dtype=np.int64)), ('0d-float64', np.array(float(r)))]
+    return forms
+
+
+def feed_sign_forms(g, out, site, n, e):
+    """one element through every (function, sign form) and every np_list container; oracle: the reference F2 vector"""
+    k, letters = e
+    npl = [ref.PAULI[c].copy() for c in letters]
+    pys = {0: 1, 1: 1j, 2: -1, 3: -1j}[k]
+    calls = []
+    for fname, sg in sign_forms(k):
+        calls.append(('pauli_str_to_F2[sign=%s]' % fname, sg, lambda sg=sg: g.pauli_str_to_F2(letters, sg)))
+        calls.append(('PauliOperator.from_str[sign=%s]' % fname, sg, lambda sg=sg: g.PauliOperator.from_str(letters, sign=sg).F2))
+        calls.append(('PauliOperator.from_np_list[sign=%s]' % fname, sg, lambda sg=sg: g.PauliOperator.from_np_list(npl, sign=sg).F2))
+    calls.append(('PauliOperator.from_np_list[tuple]', pys, lambda: g.PauliOperator.from_np_list(tuple(npl), sign=pys).F2))
+    calls.append(('PauliOperator.from_np_list[3d-array]', pys, lambda: g.PauliOperator.from_np_list(np.stack(npl), sign=pys).F2))
+    if k == 0:  # the default sign
+        calls.append(('pauli_str_to_F2[sign omitted]', None, lambda: g.pauli_str_to_F2(letters)))
+        calls.append(('PauliOperator.from_str[sign omitted]', None, lambda: g.PauliOperator.from_str(letters).F2))
+        calls.append(('PauliOperator.from_np_list[sign omitted]', None, lambda: g.PauliOperator.from_np_list(npl).F2))
+    for name, sg, fn in calls:
+        out.trans()
+        detail = dict(n=n, letters=letters, phase_exponent=k, sign=repr(sg))
+        try:
+            v = fn()
+        except Exception as ex:
+            out.violation('%s/%s/%s' % (site, name, type(ex).__name__), '%s raised %r for %s%s (sign passed as %r)' % (name, ex, SIGN_PREFIX[k], letters, sg), **detail)
+            continue
+        err, exp = cmp_f2(v, e)
+        if err is not None:
+            out.violation('%s/%s/%s' % (site, name, err), '%s returned %s for %s%s (sign passed as %r), expected %s' % (name, _lit(v), SIGN_PREFIX[k], letters, sg, exp.tolist()),
+                          observed=_lit(v), expected=exp, **detail)
+            continue
+        out.trace()
+
+
+def feed_sign_batch(g, out, site, n):
+    """all 4^n strings as a (k,l) batch, the sign given with a broadcasting sub-shape / another dtype; every rotation r of the
+    phase pattern so that every (string, phase) pair occurs; oracle: element-wise reference"""
+    M = 4 ** n
+    letters = [index_letters(i, n) for i in range(M)]
+    shapes = [(k, M // k) for k in range(1, M + 1) if M % k == 0] if n <= 2 else [(1, M), (4, M // 4), (M // 2, 2), (M, 1)]
+    for shape in shapes:
+        k, l = shape
+        S = np.array(letters, dtype='U%d' % n).reshape(shape)
+        for r in range(4):
+            out.state()
+            col = np.array([(j + r) % 4 for j in range(l)])
+            row = np.array([(i + r) % 4 for i in range(k)])
+            forms = [
+                ('sign(l,)', np.array(PH)[col], np.broadcast_to(col, shape)),
+                ('sign(k,1)', np.array(PH)[row].reshape(k, 1), np.broadcast_to(row.reshape(k, 1), shape)),
+                ('sign(1,l)', np.array(PH)[col].reshape(1, l), np.broadcast_to(col, shape)),
+                ('sign(l,)complex64', np.array(PH)[col].astype(np.complex64), np.broadcast_to(col, shape)),
+                ('sign(k,l)complex64', np.ascontiguousarray(np.broadcast_to(np.array(PH)[col], shape)).astype(np.complex64), np.broadcast_to(col, shape)),
+                ('sign(l,)int64', (1 - (col % 2) * 2).astype(np.int64), np.broadcast_to((col % 2) * 2, shape)),
+                ('sign(k,1)float64', (1.0 - (row % 2) * 2).reshape(k, 1), np.broadcast_to(((row % 2) * 2).reshape(k, 1), shape)),
+                ('sign=0d-complex128', np.array(PH[r]), np.full(shape, r)),
+                ('sign=np.complex64', np.complex64(PH[r]), np.full(shape, r)),
+            ]
+            for fname, sg, kk in forms:
+                out.trans()
+                expF = np.stack([elem_to_f2((int(kk[i, j]), letters[i * l + j])) for i in range(k) for j in range(l)]).reshape(shape + (2 * n + 2,))
+                detail = dict(n=n, batch_shape=list(shape), rotation=r, input_sign=_lit(np.asarray(sg)))
+                try:
+                    v = g.pauli_str_to_F2(S.copy(), sg)
+                except Exception as ex:
+                    out.violation('%s/pauli_str_to_F2[%s]/%s' % (site, fname, type(ex).__name__), 'pauli_str_to_F2(str batch %s, %s) raised %r' % (shape, fname, ex), **detail)
+                    continue
+                if _cmp_arr(out, '%s/pauli_str_to_F2[%s]' % (site, fname), 'pauli_str_to_F2(str batch %s, %s)' % (shape, fname), v, expF, detail, exact_dtype=np.uint8):
+                    out.trace()
+            out.outcome('signbatch:%d:%s:%d' % (n, shape, r), nontrivial=True, pre_digested=True)
+
+
+def feed_real_matrix(g, out, site, n, e):
+    """from_full_matrix on the float64 / int64 copy of a real dense Pauli (XX, ZZ, XZ = -iY, ...)"""
+    M = elem_dense(e)
+    if np.any(M.imag != 0):
+        return False
+    for tname, A in (('float64', np.ascontiguousarray(M.real)), ('int64', np.rint(M.real).astype(np.int64))):
+        if not np.array_equal(A, M):
+            harness_abort('real copy of a dense Pauli differs')
+        out.trans()
+        name = 'PauliOperator.from_full_matrix[%s]' % tname
+        detail = dict(n=n, element_F2=elem_to_f2(e), matrix=_lit(A))
+        try:
+            v = g.PauliOperator.from_full_matrix(A).F2
+        except Exception as ex:
+            out.violation('%s/%s/%s' % (site, name, type(ex).__name__), '%s raised %r on the real matrix of %s%s' % (name, ex, SIGN_PREFIX[e[0]], e[1]), **detail)
+            continue
+        err, exp = cmp_f2(v, e)
+        if err is not None:
+            out.violation('%s/%s/%s' % (site, name, err), '%s returned %s for the real matrix of %s%s, expected %s' % (name, _lit(v), SIGN_PREFIX[e[0]], e[1], exp.tolist()),
+                          observed=_lit(v), expected=exp, **detail)
+            continue
+        out.trace()
+    return True
+
+
+def group_snapshot(g, n):
+    a = g.get_pauli_group(n)
+    b = g.get_pauli_group(n, kind='str')
+    c = g.get_pauli_group(n, kind='str_to_index')
+    d = g.get_pauli_group(n, use_sparse=True)
+    return {'numpy': a, 'str': b, 'str_to_index': c, 'sparse': d}
+
+
+def check_group_recall(g, out, site, n):
+    """get_pauli_group (lru_cache) called, caches cleared, called again: both results equal the reference table"""
+    M = 4 ** n
+    letters = [index_letters(i, n) for i in range(M)]
+    dense = np.stack([elem_dense((0, s)) for s in letters])
+    snaps = [group_snapshot(g, n)]
+    seams.clear_numqi_caches()
+    snaps.append(group_snapshot(g, n))
+    snaps.append(group_snapshot(g, n))  # third call: served from the refilled cache
+    if snaps[0]['numpy'] is snaps[1]['numpy']:
+        out.count('undecided_cache_not_cleared')
+    for pos, s in enumerate(snaps):
+        tag = ['first', 'after_cache_clear', 'cached_again'][pos]
+        out.trans(4)
+        ok = (isinstance(s['numpy'], np.ndarray) and s['numpy'].shape == dense.shape and np.array_equal(s['numpy'], dense))
+        out.check(ok, '%s/get_pauli_group[numpy]/wrong_value/%s' % (site, tag), 'get_pauli_group(%d) (%s call) differs from the kron-built table' % (n, tag), n=n)
+        out.check(isinstance(s['str'], tuple) and list(s['str']) == letters, '%s/get_pauli_group[str]/wrong_value/%s' % (site, tag), 'get_pauli_group(%d, kind=str) (%s call) wrong' % (n, tag), n=n, observed=_lit(list(s['str'])[:64]))
+        out.check(isinstance(s['str_to_index'], dict) and s['str_to_index'] == {x: i for i, x in enumerate(letters)}, '%s/get_pauli_group[str_to_index]/wrong_value/%s' % (site, tag),
+                  'get_pauli_group(%d, kind=str_to_index) (%s call) wrong' % (n, tag), n=n)
+        sp = s['sparse']
+        ok = isinstance(sp, list) and len(sp) == M and all(np.array_equal(x.toarray(), dense[i]) for i, x in enumerate(sp))
+        out.check(ok, '%s/get_pauli_group[sparse]/wrong_value/%s' % (site, tag), 'get_pauli_group(%d, use_sparse=True) (%s call) wrong' % (n, tag), n=n)
+        out.trace()
+
+
+ALIAS_PRE = ['none', 'str_', 'sign', 'np_list', 'full_matrix', 'repr']
+
+
+def alias_views(p, cand, n):
+    """names of the views of p that decode to the element cand"""
+    sg = p.sign
+    views = {
+        'F2': cmp_f2(p.F2, cand)[0] is None,
+        'str_,sign': cmp_ss((p.str_, sg), cand)[0] is None,
+        'np_list': cmp_npl((p.np_list, PH[cand[0]]), cand)[0] is None,  # letters only
+        'full_matrix': cmp_mat(p.full_matrix, cand)[0] is None,
+        'repr': cmp_repr(repr(p), cand)[0] is None,
+    }
+    return views
 
 
 # ------------------------------------------------------------------ structured alphabets
@@ -468,6 +764,19 @@ def build_cases(tier, seed):
         for perm in (0, 1):
             for a in range(0, len(shapes), step):
                 cases.append({'kind': 'batch', 'n': n, 'perm': perm, 'lo': a, 'hi': min(len(shapes), a + step)})
+    # argument forms (numpy-scalar indices, out-of-range indices, sign forms, real matrices, cache re-call)
+    info['argument_forms'] = {'n': n_full, 'index_scalar_types': [t[0] for t in NP_INDEX_TYPES], 'out_of_range_indices': ['4^n', '4^n+1', '-1'],
+                              'scalar_sign_forms': [f[0] for f in sign_forms(0)], 'pending_repairs': sorted(PENDING)}
+    for n in n_full:
+        cases.append({'kind': 'argform', 'n': n})
+    # source array of a PauliOperator overwritten after construction: all ordered pairs (old, new)
+    n_alias = [1, 2] if quick else [1, 2, 3]
+    info['f2_alias'] = {'n': n_alias, 'reads_before_mutation': ALIAS_PRE}
+    for n in n_alias:
+        N = 4 ** (n + 1)
+        step = 16 if n <= 2 else 8
+        for a in range(0, N, step):
+            cases.append({'kind': 'f2alias', 'n': n, 'lo': a, 'hi': min(N, a + step)})
     # large indices
     info['big_index_n'] = list(range(1, 32))
     for n in range(1, 32):
@@ -626,6 +935,8 @@ def run_objhist(case, out, env, numqi):
             return ('wrong_%s_np_list' % name, None)
         if n <= 3 and cmp_mat(q.full_matrix, eq)[0] is not None:
             return ('wrong_%s_full_matrix' % name, q.full_matrix)
+        if cmp_repr(repr(q), eq)[0] is not None:
+            return ('wrong_%s_repr' % name, repr(q))
         return None
 
     def step(p, ev, e, f2, hist):
@@ -647,7 +958,14 @@ def run_objhist(case, out, env, numqi):
             return None if cmp_mat(v, e)[0] is None else ('wrong_full_matrix', v)
         if ev == 'repr':
             v = repr(p)
-            return None if isinstance(v, str) else ('wrong_repr', v)
+            if not isinstance(v, str):
+                return ('wrong_repr', v)
+            err = cmp_repr(v, e)[0]
+            if err is not None:
+                return (err, v)
+            v = str(p)
+            err = cmp_repr(v, e)[0]
+            return None if err is None else (err.replace('repr', 'str'), v)
         if ev == 'len':
             v = len(p)
             return None if v == n else ('wrong_len', v)
@@ -825,6 +1143,15 @@ def run_bigidx(case, out, env, numqi):
         out.state()
         for node in ('IDX', 'SS', 'F2', 'F2NS'):
             walk(g, out, n, e, node, start_value(node, e), e, 3 if n <= 12 else 2, [], node, site='bigidx', dense_ok=False)
+    # numpy integer scalars (elements of the library's own index batches, int32 where it fits) into the scalar consumers
+    letters, batches = library_index_batches(g, out, 'bigidx', n, alpha)
+    for tname, arr in batches:
+        for pos in range(len(alpha)):
+            out.state()
+            feed_numpy_index(g, out, 'bigidx', n, arr[pos], tname, letters[pos], dense_ok=False)
+            out.outcome('npidx:%d:%s:%d' % (n, tname, int(alpha[pos])), nontrivial=alpha[pos] != 0, pre_digested=True)
+    # 4^n, 4^n+1, -1 have to be rejected
+    feed_out_of_range(g, out, 'bigidx', n)
     # batched: the whole alphabet at once, shapes (k,) and (k,l)
     K = len(alpha)
     shapes = [(K,)] + [(k, K // k) for k in (2, 3) if K % k == 0] + [(1,), (K - 1,)]
@@ -878,6 +1205,24 @@ def run_bign(case, out, env, numqi):
         out.state()
         for node in ['F2', 'SS', 'NPL'] + (['IDX', 'F2NS'] if e[0] == 0 else []):
             walk(g, out, n, e, node, start_value(node, e), e, 2, [], node, site='bign', dense_ok=False)
+    # sign argument forms and repr / str on the structured + generic alphabet
+    for e in alpha:
+        out.state()
+        feed_sign_forms(g, out, 'bign', n, e)
+        out.trans(2)
+        try:
+            p = g.PauliOperator(elem_to_f2(e))
+            rs = [('repr', repr(p)), ('str', str(p)), ('repr', repr(g.PauliOperator.from_str(e[1], sign=PH[e[0]])))]
+        except Exception as ex:
+            out.violation('bign/PauliOperator.repr/%s' % type(ex).__name__, 'repr raised %r for %s%s' % (ex, SIGN_PREFIX[e[0]], e[1]), n=n, F2=elem_to_f2(e))
+            continue
+        for what, v in rs:
+            err, exp = cmp_repr(v, e)
+            if err is not None:
+                out.violation('bign/PauliOperator.%s/%s' % (what, err), '%s(p) = %r, expected %r' % (what, v, exp), n=n, F2=elem_to_f2(e), observed=v, expected=exp)
+                break
+        else:
+            out.trace()
     # algebra: all ordered pairs of the alphabet against the letter-wise reference
     objs = [g.PauliOperator(v.copy()) for v in f2s]
     ident = np.zeros(2 * n + 2, dtype=np.uint8)
@@ -1009,7 +1354,112 @@ def run_rand_seed(case, out, env, numqi):
     out.sample = {'kind': 'rand_seed', 'n': n, 'seeds': case['seeds']}
 
 
-RUNNERS = {'conv': run_conv, 'algebra': run_algebra, 'objhist': run_objhist, 'batch': run_batch, 'bigidx': run_bigidx,
+def library_index_batches(g, out, site, n, idx_list):
+    """the index batches the library itself produces for the given indices: uint64 from pauli_str_to_index, int64 from
+    pauli_F2_to_index (their ELEMENTS are what a caller feeds back one at a time), plus the int32 cast where it fits"""
+    letters = [index_letters(i, n) for i in idx_list]
+    src = {}
+    try:
+        src['pauli_str_to_index'] = g.pauli_str_to_index(np.array(letters, dtype='U%d' % n))
+        src['pauli_F2_to_index'] = g.pauli_F2_to_index(np.stack([elem_to_f2((0, s)) for s in letters]))
+    except Exception as ex:
+        out.violation('%s/index_batch/%s' % (site, type(ex).__name__), 'index batch conversion raised %r' % (ex,), n=n)
+    ret = []
+    for name, arr in src.items():
+        if isinstance(arr, np.ndarray) and arr.shape == (len(idx_list),) and arr.dtype.kind in 'iu' and [int(x) for x in arr.tolist()] == list(idx_list):
+            ret.append(('%s->%s' % (name, arr.dtype.name), arr))
+            out.count('numpy_index_from_library')
+        else:
+            out.count('undecided_library_index_batch')  # a wrong batch is reported by the batch / bigidx kinds
+    have = {a.dtype for _, a in ret}
+    for tname, T, lim in NP_INDEX_TYPES:
+        if np.dtype(T) not in have and max(idx_list) < lim:
+            ret.append((tname, np.array(idx_list, dtype=T)))
+    return letters, ret
+
+
+def run_argform(case, out, env, numqi):
+    g = numqi.gate
+    n = case['n']
+    site = 'argform'
+    M = 4 ** n
+    # gap 1: numpy integer scalars into the scalar index consumers, all 4^n indices x element types
+    letters, batches = library_index_batches(g, out, site, n, list(range(M)))
+    for tname, arr in batches:
+        for pos in range(M):
+            out.state()
+            sc = arr[pos]
+            if not isinstance(sc, np.integer):
+                harness_abort('element of an index batch is not a numpy integer')
+            feed_numpy_index(g, out, site, n, sc, tname, letters[pos])
+            out.outcome('npidx:%d:%s:%d' % (n, type(sc).__name__, pos), nontrivial=pos != 0, pre_digested=True)
+    # gap 2: out-of-range indices
+    feed_out_of_range(g, out, site, n)
+    # gap 4: sign argument forms, scalar and batched; gap 6: real / integer dense matrices
+    real = 0
+    for f2 in ref.all_f2(n):
+        e = f2_to_elem(f2)
+        out.state()
+        feed_sign_forms(g, out, site, n, e)
+        real += bool(feed_real_matrix(g, out, site, n, e))
+        out.outcome('argform:%d:%d:%s' % (n, e[0], e[1]), nontrivial=(e != (0, 'I' * n)), pre_digested=True)
+    if real != 2 * 4 ** n:  # i^k * letters is real iff k + #Y is even
+        harness_abort('number of real dense Paulis')
+    feed_sign_batch(g, out, site, n)
+    # gap 6: lru_cache'd tables re-built after the caches were cleared
+    check_group_recall(g, out, site, n)
+    out.sample = {'kind': 'argform', 'n': n, 'index_types': [b[0] for b in batches], 'sign_forms': [f[0] for f in sign_forms(0)]}
+
+
+def run_f2alias(case, out, env, numqi):
+    """PauliOperator(src) keeps a reference to src. History: construct, read one view (memoises _str/_sign/_np_list), overwrite
+    src in place with another element, read every view. The views must describe ONE operator (all old or all new)."""
+    g = numqi.gate
+    n = case['n']
+    f2all = ref.all_f2(n)
+    N = len(f2all)
+    elems = [f2_to_elem(v) for v in f2all]
+    ctors = [('PauliOperator', lambda s: g.PauliOperator(s)), ('PauliOperator.from_F2', lambda s: g.PauliOperator.from_F2(s))]
+    for a in range(case['lo'], case['hi']):
+        for b in range(N):
+            if a == b:
+                continue
+            for cname, ctor in ctors:
+                for pre in ALIAS_PRE:
+                    if pre != 'none' and pending(out, 'f2_alias'):
+                        continue
+                    out.state()
+                    out.trans(7)
+                    src = f2all[a].copy()
+                    detail = dict(n=n, old_F2=f2all[a], new_F2=f2all[b], read_before_mutation=pre, constructor=cname)
+                    try:
+                        p = ctor(src)
+                        if pre == 'repr':
+                            repr(p)
+                        elif pre != 'none':
+                            getattr(p, pre)
+                        src[:] = f2all[b]
+                        vo = alias_views(p, elems[a], n)
+                        vn = alias_views(p, elems[b], n)
+                    except Exception as ex:
+                        out.violation('f2alias/%s/%s' % (cname, type(ex).__name__), 'reading the views of %s(src) after src was overwritten raised %r' % (cname, ex), **detail)
+                        continue
+                    if all(vo.values()):
+                        out.outcome('alias:%d:%s:old' % (n, pre), nontrivial=True, pre_digested=True)
+                    elif all(vn.values()):
+                        out.outcome('alias:%d:%s:new' % (n, pre), nontrivial=True, pre_digested=True)
+                    else:
+                        out.violation('f2alias/%s/mixed_views/read_%s_first' % (cname, pre),
+                                      'p=%s(src); %ssrc[:]=%s (was %s): views describing the old operator %s, the new one %s - the object is neither' % (
+                                          cname, '' if pre == 'none' else 'p.%s; ' % pre, f2all[b].tolist(), f2all[a].tolist(),
+                                          [k for k, v in vo.items() if v], [k for k, v in vn.items() if v]),
+                                      views_old=[k for k, v in vo.items() if v], views_new=[k for k, v in vn.items() if v], **detail)
+                        continue
+                    out.trace()
+    out.sample = {'kind': 'f2alias', 'n': n, 'old_F2': f2all[case['lo']].tolist(), 'reads_before_mutation': ALIAS_PRE}
+
+
+RUNNERS = {'argform': run_argform, 'f2alias': run_f2alias, 'conv': run_conv,'algebra': run_algebra, 'objhist': run_objhist, 'batch': run_batch, 'bigidx': run_bigidx,
            'bign': run_bign, 'bign_dense': run_bign_dense, 'rand_stub': run_rand_stub, 'rand_seed': run_rand_seed}
 
 
